@@ -82,7 +82,19 @@ async fn run_one(sc: &Value, listener: &TcpListener, sched: &AsyncSched, idx: us
     let gone = wait_until(|| futures_count(&n2) == 2, 500).await;
     log.lock().unwrap().clear();
     let never = ExternalPid::new(node.name().clone(), 555_555, 0, node.creation());
-    let Some(mut peer) = connect_peer(&node, listener).await else { return json!({"tool_error": "connect"}) };
+    let remote = ExternalPid::new(Atom::new(PEER), 11, 0, 1);
+    // "eager_first": the peer sends the first frame of the scenario (a name-addressed message) in one piece with its last handshake message
+    let eager = sc["eager_first"].as_bool().unwrap_or(false);
+    let mut tail = Vec::new();
+    if eager {
+        let body = pass_through(&OwnedTerm::Tuple(vec![OwnedTerm::Integer(6), OwnedTerm::Pid(remote.clone()), a(""), a("alpha")]), Some(&tagged("send_name", 1)));
+        tail.extend_from_slice(&(body.len() as u32).to_be_bytes());
+        tail.extend_from_slice(&body);
+    }
+    let Some(mut peer) = crate::rpc::connect_peer_tail(&node, listener, &tail).await else { return json!({"tool_error": "connect"}) };
+    if eager {
+        tokio::time::sleep(Duration::from_millis(40)).await;
+    }
     // the outstanding remote call
     let n3 = node.clone();
     let call = tokio::spawn(async move { n3.rpc_call_raw_with_timeout(PEER, "m", "f", vec![], Duration::from_secs(3)).await.map_err(|e| format!("{e:?}")) });
@@ -99,7 +111,6 @@ async fn run_one(sc: &Value, listener: &TcpListener, sched: &AsyncSched, idx: us
         })
     };
     let Some(call_pid) = call_pid else { return json!({"tool_error": "rpc request not seen by the peer"}) };
-    let remote = ExternalPid::new(Atom::new(PEER), 11, 0, 1);
     let rref = ExternalReference::new(Atom::new(PEER), 1, vec![7, 8, 9]);
     sched.take_log();
     sched.set_free_run(false);
@@ -107,7 +118,13 @@ async fn run_one(sc: &Value, listener: &TcpListener, sched: &AsyncSched, idx: us
     let mut steps = Vec::new();
     let mut frame_no = 0i64;
     let mut peer_open = true;
-    for (kind, tgt) in hist.iter() {
+    for (hi, (kind, tgt)) in hist.iter().enumerate() {
+        if eager && hi == 0 {
+            // already sent with the handshake (and, the receiver running freely during set-up, already routed)
+            frame_no += 1;
+            steps.push(json!({"kind": kind, "tgt": tgt, "wrote": true, "outcome": "routed", "registered": node.connections().contains_key(PEER), "eager": true}));
+            continue;
+        }
         if kind == "kill" {
             let _ = node.send(&p2, a("die")).await;
             let n4 = node.clone();
@@ -127,6 +144,7 @@ async fn run_one(sc: &Value, listener: &TcpListener, sched: &AsyncSched, idx: us
             }
             tokio::time::sleep(Duration::from_millis(50)).await;
             sched.set_free_run(false);
+            frame_no += 1; // the quiet period counts as one entry of the scenario
             steps.push(json!({"kind": "ticks", "tgt": tgt, "registered": node.connections().contains_key(PEER)}));
             continue;
         }
